@@ -57,6 +57,7 @@ fn main() {
         "C11" => run_property(props::c11_erasure::C11, run_args),
         "C12" => run_property(props::c12_shred_binding::C12, run_args),
         "C13" => run_property(props::c13_blockstore::C13, run_args),
+        "C14" => run_property(props::c14_repair::C14, run_args),
         "C15" => run_property(props::c15_merkle::C15, run_args),
         "C16" => run_property(props::c16_routing::C16, run_args),
         "C17" => run_property(props::c17_sampling::C17, run_args),
